@@ -12,18 +12,21 @@ from .. import backends, gen, prog
 from ..observe import ACCESSORS, diff, observe
 from ..util import jsonable
 
-RULE = ("rule-based state machine over a pool of live URLs, driving two private copies of the package in lock-step: copy A 'cold' (all LRU caches "
-        "cleared and operands replaced by unpickled clones before every step) and copy B 'warm' (long history, reused operands with filled per-object "
+RULE = ("rule-based state machine over a pool of live URLs, driving two private copies of the package in lock-step: a PRISTINE executor (every step is re-executed "
+        "in a freshly forked child of a zygote process that loaded the package but never used it, on cache-free operands rebuilt from their five parts - so its outcome "
+        "depends on the arguments only: no LRU contents, no per-object caches, no hidden state in module-level quoter objects, no static buffers) and copy B 'warm' (long history, reused operands with filled per-object "
         "caches, cache sizes 0/1/2/64/None/defaults via cache_configure). Rules: create (constructor, encoded=True, build; argument strings drawn from "
         "small colliding pools), accessor reads, str/repr/bytes/hash/bool, comparisons and join between pool members, every modifier, pickle/copy/"
         "deepcopy, cache_clear/cache_configure/cache_info. Invariants after every step: (1) OBSERVE of every live URL and of a cache-free clone equals "
-        "its entry snapshot, mutable arguments unchanged; (2) the step's outcome is identical in A and B. Non-trivial: a sequence with >=1 cache_clear/"
+        "its entry snapshot, mutable arguments unchanged; (2) the step's outcome is identical in the pristine process and in B. Non-trivial: a sequence with >=1 cache_clear/"
         "cache_configure, >=1 re-use of an operand whose cache was filled, and >=1 creation of a URL equal to an earlier one. Distinct by step log.")
 ASSUMPTIONS = ["cache_info() values, object identity of results and warnings are not compared"]
 
 POOL_MAX = 8
 HOST_POOL = ["h", "H", "h.example", "a b", "a_b", "a\\b", "пример", "ПРИМЕР", "☃.NET", "127.0.0.1", "[::1]", "[0:0::1]", "[fe80::1%eth0]", "xn--n3h", "a%41", "ex ample"]
-TEXT_POOL = ["", "a", "A", "a b", "a%20b", "%41", "a/b", "a+b", "é", "%C3%A9", "k=v", "k=v&k=w", "x#y", "?", ".", "..", "%2F", "u:p", "@"]
+TEXT_POOL = ["", "a", "A", "a b", "a%20b", "%41", "a/b", "a+b", "é", "%C3%A9", "k=v", "k=v&k=w", "x#y", "?", ".", "..", "%2F", "u:p", "@",
+             # halves of multi-byte escape runs and dangling '%': hidden state carried from one call into the next would join them
+             "%E2%82", "%AC", "%C3", "%A9", "x%E2", "%82%ACy", "%F0%9F", "%98%80", "%", "a%", "41", "%4", "1"]
 
 
 def txt():
@@ -37,7 +40,7 @@ def hosts():
 def ctor_strategy():
     return st.one_of(
         gen.url_string(txt(), hosts=hosts()).map(lambda s: ["str", s]),
-        st.sampled_from(["http://h", "http://h/", "http://H:80/", "//:77", "//u@:0", "http://h/a b", "http://h/a%20b", "http://[::1]/", "/a/b", "a", "", "http://h/?k=v", "http://a b/"]).map(lambda s: ["str", s]),
+        st.sampled_from(["http://h", "http://h/", "http://H:80/", "//:77", "//u@:0", "http://h/a b", "http://h/a%20b", "http://[::1]/", "/a/b", "a", "", "http://h/?k=v", "http://a b/", "http://h/a/%E2%82", "http://h/b/%AC", "http://h/%", "http://h/41?%#%"]).map(lambda s: ["str", s]),
         gen.url_string(txt(), hosts=hosts()).map(lambda s: ["enc", s]),
         st.sampled_from(["http://h", "http://h/a b", "//:77", "http://H/"]).map(lambda s: ["enc", s]),
         prog.build_kwargs(txt(), hosts()).map(lambda kw: ["build", kw]),
@@ -51,31 +54,94 @@ def outcome(f):
         return ("exc", type(e).__name__)
 
 
+CALLS = {"str": str, "repr": repr, "bytes": bytes, "hash": hash, "bool": bool, "human_repr": lambda u: u.human_repr(), "is_default_port": lambda u: u.is_default_port(),
+         "query": lambda u: list(u.query.items()), "origin": lambda u: str(u.origin()), "relative": lambda u: str(u.relative()), "parent": lambda u: str(u.parent)}
+
+
+def rebuild(Y, parts):
+    """a cache-free URL made from its five stored parts (the unpickling path)"""
+    u = Y.URL.__new__(Y.URL)
+    u.__setstate__((tuple(parts),))
+    return u
+
+
+def result_outcome(Y, f):
+    try:
+        r = f()
+    except Exception as e:  # noqa: BLE001
+        return ("exc", type(e).__name__), None
+    if type(r) is Y.URL:
+        return ("ok", observe(r)), r
+    return ("ok", r), None
+
+
+def do_step(Y, s, operands):
+    """execute one step on the given operand URLs; returns (outcome, result URL or None)"""
+    kind = s[0]
+    if kind == "create":
+        return result_outcome(Y, lambda: prog.construct(Y, s[1]))
+    if kind == "read":
+        return outcome(lambda: getattr(operands[0], s[2])), None
+    if kind == "call":
+        return outcome(lambda: CALLS[s[2]](operands[0])), None
+    if kind == "cmp":
+        return outcome(lambda: getattr(operator, s[3])(operands[0], operands[1])), None
+    if kind == "join":
+        return result_outcome(Y, lambda: operands[0].join(operands[1]))
+    if kind == "mod":
+        return result_outcome(Y, lambda: prog.apply(Y, operands[0], s[2]))
+    if kind == "pickle":
+        return result_outcome(Y, lambda: pickle.loads(pickle.dumps(operands[0], s[2] if len(s) > 2 else 2)))
+    if kind in ("copy", "deepcopy"):
+        return result_outcome(Y, lambda: getattr(copy, kind)(operands[0]))
+    if kind == "cache_clear":
+        return outcome(Y.mod.cache_clear), None
+    if kind == "cache_info":
+        return ("ok", outcome(Y.mod.cache_info)[0]), None  # the statistics themselves are history by definition
+    if kind == "cache_configure":
+        return outcome(lambda: Y.mod.cache_configure(**s[1])), None
+    if kind == "observe":
+        return ("ok", observe(operands[0])), None
+    raise AssertionError(kind)
+
+
+def pristine_exec(Y, request):
+    """runs in a freshly forked child of the zygote: nothing in this process has ever used the package"""
+    s, parts_list = request
+    operands = [rebuild(Y, p) for p in parts_list]
+    out, _r = do_step(Y, s, operands)
+    return out
+
+
+_PRISTINE = {}
+
+
+def get_pristine(backend):
+    from ..pristine import Pristine
+    if backend not in _PRISTINE:
+        _PRISTINE[backend] = Pristine(backend, pristine_exec)
+    return _PRISTINE[backend]
+
+
 class State:
-    """the two copies and the pool; executes JSON-able steps (used by the machine and by replay)"""
+    """the warm copy, the pristine executor and the pool; executes JSON-able steps (used by the machine and by replay)"""
 
     def __init__(self, ctx, backend):
         self.ctx = ctx
         self.backend = backend
-        self.A = backends.load(backend, "A")
         self.B = backends.load(backend, "B")
-        for Y in (self.A, self.B):
-            with warnings.catch_warnings():
-                warnings.simplefilter("ignore")
-                Y.mod.cache_configure()
-            backends.clear_all(Y)
-        self.pool = []  # (uA, uB, snapshot, route)
+        self.P = get_pristine(backend)
+        with warnings.catch_warnings():
+            warnings.simplefilter("ignore")
+            self.B.mod.cache_configure()
+        backends.clear_all(self.B)
+        self.pool = []  # (warm URL, snapshot, route)
         self.log = []
         self.flags = {"cache_op": False, "reuse": False, "equal_again": False}
         self.read_before = set()
         self.seen_strs = set()
 
-    # -- helpers ----------------------------------------------------------
-    def _cold(self, *urls):
-        backends.clear_all(self.A)
-        return [pickle.loads(pickle.dumps(u)) for u in urls]
-
-    def _add(self, ra, rb, route):
+    def _add(self, rb, route):
         if len(self.pool) >= POOL_MAX:
             self.pool.pop(0)
             self.read_before = {i - 1 for i in self.read_before if i > 0}
@@ -84,128 +150,91 @@ class State:
         if s in self.seen_strs:
             self.flags["equal_again"] = True
         self.seen_strs.add(s)
-        self.pool.append((ra, rb, snap, route))
+        self.pool.append((rb, snap, route))
+
+    def _pristine(self, s, operands):
+        out = self.P.call((s, [tuple(u._val) for u in operands]))
+        if out and out[0] in ("executor-error", "child-crashed"):
+            self.ctx.errors.append("pristine executor problem on step %r: %r" % (s, out))
+            return None
+        return out
 
     def _compare(self, what, oa, ob, route=None, auth=None):
-        """outcomes of the same step in the cold and the warm copy"""
-        if oa == ob:
-            return True
+        """outcome of the same call in a pristine process (arguments only) and in the warm copy (long history)"""
+        if oa is None or oa == ob:
+            return oa is not None
         fields = None
         if oa[0] == "ok" and ob[0] == "ok" and isinstance(oa[1], dict) and isinstance(ob[1], dict):
-            # recogniser format shared with C09: (pre-filled/warm value, cache-free/cold value)
+            # recogniser format shared with C09: (pre-filled/warm value, cache-free/pristine value)
             fields = diff(ob[1], oa[1])
-        return self.ctx.check(False, "the outcome of a call depends on history (cold copy vs warm copy)",
-                              observed={"step": what, "cold": oa if fields is None else "(see fields)", "warm": ob if fields is None else "(see fields)", "fields": fields,
+        return self.ctx.check(False, "the outcome of a call depends on history (pristine process vs warm copy)",
+                              observed={"step": what, "pristine": oa if fields is None else "(see fields)", "warm": ob if fields is None else "(see fields)", "fields": fields,
                                         "route": route, "raw_authority": auth}, expected="identical outcomes", entry=what[0])
 
-    def _result_outcome(self, Y, f):
-        try:
-            r = f()
-        except Exception as e:  # noqa: BLE001
-            return ("exc", type(e).__name__), None
-        if type(r) is Y.URL:
-            return ("ok", observe(r)), r
-        return ("ok", r), None
-
-    # -- steps ------------------------------------------------------------
     def step(self, s):
         self.log.append(s)
         self.ctx.cur = ("machine", {"backend": self.backend, "steps": self.log})
         kind = s[0]
-        A, B = self.A, self.B
-        if kind == "create":
-            backends.clear_all(A)
-            oa, ra = self._result_outcome(A, lambda: prog.construct(A, s[1]))
-            ob, rb = self._result_outcome(B, lambda: prog.construct(B, s[1]))
-            route = s[1][0]
-            auth = rb._netloc if rb is not None else None
-            if self._compare(s, oa, ob, route=route, auth=auth) and ra is not None and rb is not None:
-                self._add(ra, rb, route)
-        elif kind in ("cache_clear", "cache_configure", "cache_info"):
+        B = self.B
+        if kind in ("cache_clear", "cache_configure", "cache_info"):
             self.flags["cache_op"] = self.flags["cache_op"] or kind != "cache_info"
-            outs = []
-            for Y in (A, B):
-                with warnings.catch_warnings():
-                    warnings.simplefilter("ignore")
-                    if kind == "cache_clear":
-                        outs.append(outcome(Y.mod.cache_clear))
-                    elif kind == "cache_info":
-                        outs.append(("ok", outcome(Y.mod.cache_info)[0]))  # the statistics themselves are history by definition
-                    else:
-                        outs.append(outcome(lambda: Y.mod.cache_configure(**s[1])))
-            self._compare(s, outs[0], outs[1])
-        elif not self.pool:
+            with warnings.catch_warnings():
+                warnings.simplefilter("ignore")
+                ob, _ = do_step(B, s, [])
+            self._compare(s, self._pristine(s, []), ob)
             return
-        elif kind in ("read", "call"):
-            i = s[1] % len(self.pool)
-            ua, ub, snap, route = self.pool[i]
-            (ua,) = self._cold(ua)
-            if i in self.read_before:
+        if kind == "create":
+            ob, rb = do_step(B, s, [])
+            route = s[1][0]
+            if self._compare(s, self._pristine(s, []), ob, route=route, auth=rb._netloc if rb is not None else None) and rb is not None:
+                self._add(rb, route)
+            return
+        if not self.pool:
+            return
+        idx = [s[1] % len(self.pool)] + ([s[2] % len(self.pool)] if kind in ("cmp", "join") else [])
+        ops = [self.pool[i][0] for i in idx]
+        route = self.pool[idx[0]][2]
+        if kind in ("read", "call", "mod"):
+            if idx[0] in self.read_before:
                 self.flags["reuse"] = True
-            self.read_before.add(i)
-            name = s[2]
-            if kind == "read":
-                fa, fb = (lambda: getattr(ua, name)), (lambda: getattr(ub, name))
-            else:
-                g = {"str": str, "repr": repr, "bytes": bytes, "hash": hash, "bool": bool, "human_repr": lambda u: u.human_repr(), "is_default_port": lambda u: u.is_default_port(),
-                     "query": lambda u: list(u.query.items()), "origin": lambda u: str(u.origin()), "relative": lambda u: str(u.relative()), "parent": lambda u: str(u.parent)}[name]
-                fa, fb = (lambda: g(ua)), (lambda: g(ub))
-            oa, ob = outcome(fa), outcome(fb)
-            if oa != ob:
-                # full observation of both operands, so that the difference can be attributed (recognisers look at the host-derived fields)
-                oa, ob = ("ok", observe(ua)), ("ok", observe(ub))
-            self._compare(s, oa, ob, route=route, auth=ub._netloc)
-        elif kind in ("cmp", "join"):
-            i, j = s[1] % len(self.pool), s[2] % len(self.pool)
-            ua, ub = self.pool[i][0], self.pool[i][1]
-            va, vb = self.pool[j][0], self.pool[j][1]
-            ua, va = self._cold(ua, va)
-            if kind == "cmp":
-                op = getattr(operator, s[3])
-                self._compare(s, outcome(lambda: op(ua, va)), outcome(lambda: op(ub, vb)))
-            else:
-                oa, ra = self._result_outcome(A, lambda: ua.join(va))
-                ob, rb = self._result_outcome(B, lambda: ub.join(vb))
-                # join() may return one of its operands unchanged (other scheme / non-relative base): that object keeps its route
-                r_route = self.pool[j][3] if rb is vb else (self.pool[i][3] if rb is ub else "join")
-                if self._compare(s, oa, ob, route=r_route, auth=rb._netloc if rb is not None else None) and ra is not None and rb is not None:
-                    self._add(ra, rb, r_route)
-        elif kind == "mod":
-            i = s[1] % len(self.pool)
-            ua, ub, snap, route = self.pool[i]
-            (ua,) = self._cold(ua)
-            if i in self.read_before:
-                self.flags["reuse"] = True
-            op = s[2]
-            arg_b = copy.deepcopy(op)
-            before = json.dumps(jsonable(arg_b), sort_keys=True)
-            oa, ra = self._result_outcome(A, lambda: prog.apply(A, ua, copy.deepcopy(op)))
-            ob, rb = self._result_outcome(B, lambda: prog.apply(B, ub, arg_b))
-            self.ctx.check(json.dumps(jsonable(arg_b), sort_keys=True) == before, "an argument passed to a modifier was mutated", observed=jsonable(arg_b), expected=op, entry=op[0])
-            if self._compare(s, oa, ob, route=route, auth=ub._netloc) and ra is not None and rb is not None:
-                # modifiers may return the operand itself (parent of a bare authority, with_fragment(same), ...): it keeps its route
-                self._add(ra, rb, route if rb is ub else ("mod" if route != "enc" else "enc"))
-        elif kind in ("pickle", "copy", "deepcopy"):
-            i = s[1] % len(self.pool)
-            ua, ub, snap, route = self.pool[i]
-            (ua,) = self._cold(ua)
-            f = {"pickle": lambda u: pickle.loads(pickle.dumps(u, s[2] if len(s) > 2 else 2)), "copy": copy.copy, "deepcopy": copy.deepcopy}[kind]
-            oa, ra = self._result_outcome(A, lambda: f(ua))
-            ob, rb = self._result_outcome(B, lambda: f(ub))
-            if self._compare(s, oa, ob, route=route, auth=ub._netloc) and ra is not None and rb is not None:
-                self._add(ra, rb, "twin:" + route)
+            self.read_before.add(idx[0])
+        arg_before = None
+        if kind == "mod":
+            s_b = ["mod", s[1], copy.deepcopy(s[2])]
+            arg_before = json.dumps(jsonable(s_b[2]), sort_keys=True)
         else:
-            raise AssertionError(kind)
+            s_b = s
+        ob, rb = do_step(B, s_b, ops)
+        if arg_before is not None:
+            self.ctx.check(json.dumps(jsonable(s_b[2]), sort_keys=True) == arg_before, "an argument passed to a modifier was mutated", observed=jsonable(s_b[2]), expected=s[2], entry=s[2][0])
+        oa = self._pristine(s, ops)
+        if kind in ("read", "call") and oa is not None and oa != ob:
+            # full observation of both sides, so that the difference can be attributed (recognisers look at the host-derived fields)
+            oa, ob = self._pristine(["observe"], ops[:1]), ("ok", observe(ops[0]))
+        r_route = None
+        if rb is not None:
+            # a call may return one of its operands unchanged (parent of a bare authority, join() with another scheme, ...): it keeps its route
+            r_route = "mod" if route != "enc" else "enc"
+            if kind in ("pickle", "copy", "deepcopy"):
+                r_route = "twin:" + route
+            if kind == "join":
+                r_route = "join"
+            for i, u in zip(idx, ops):
+                if rb is u:
+                    r_route = self.pool[i][2]
+        auth = rb._netloc if rb is not None else ops[0]._netloc
+        if self._compare(s, oa, ob, route=r_route if rb is not None else route, auth=auth) and rb is not None:
+            self._add(rb, r_route)
 
     def check_immutable(self):
         """invariant 1: nothing that happened changed any live URL (warm copy: caches filled by history)"""
-        for idx, (ua, ub, snap, route) in enumerate(self.pool):
+        for idx, (ub, snap, route) in enumerate(self.pool):
             now = observe(ub)
             if now != snap:
                 self.ctx.check(False, "a live URL changed its observable state", observed={"fields": diff(snap, now), "str": snap["str"][1] if snap["str"][0] == "ok" else None, "route": route,
                                                                                             "raw_authority": ub._netloc}, expected="identical to the snapshot taken at creation", entry="immutability")
                 return
-            clone = observe(pickle.loads(pickle.dumps(ub)))
+            clone = observe(rebuild(self.B, ub._val))
             if clone != snap:
                 d = diff(snap, clone)
                 self.ctx.check(False, "a cache-free clone of a live URL observes differently from the URL's entry snapshot", observed={"fields": d, "route": route, "raw_authority": ub._netloc},
@@ -307,5 +336,5 @@ def machines(ctx, backend, n, steps):
 
 
 def shards(tier, seed):
-    n, steps, k = (200, 60, 7) if tier == "quick" else (3000, 150, 8)
+    n, steps, k = (150, 60, 7) if tier == "quick" else (3000, 150, 8)
     return [{"name": "machine-%s-%d" % (b, i), "fn": "machines", "kw": {"backend": b, "n": n, "steps": steps}} for b in ("py", "c") for i in range(k)]
